@@ -56,8 +56,8 @@ def blen(c):
 # ------------------------------------------------------------------ phase M: the matcher model
 def model_phase(v, cov, tier):
     quick = tier == "quick"
-    maxh, maxn = (8, 5) if quick else (11, 6)
-    r = tlc.run("text/TwoWay.tla", "text/TwoWay.cfg", workers=6, env={"MAXH": maxh, "MAXN": maxn}, timeout=240 if quick else 1500)
+    maxh, maxn = (8, 5) if quick else (12, 7)
+    r = tlc.run("text/TwoWay.tla", "text/TwoWay.cfg", workers=6, env={"MAXH": maxh, "MAXN": maxn}, timeout=240 if quick else 2400)
     if r.timed_out or r.rc not in (0, 12, 13):
         raise common.ToolError("TwoWay.cfg: rc=%s timed_out=%s\n%s" % (r.rc, r.timed_out, "\n".join(r.tail[-15:])))
     cov["model"] = {"TwoWay.cfg": {"threshold": 2, "max_haystack": maxh, "max_needle": maxn, "alphabet": "ab", "pairs": r.coverage.get("Init", (0, 0))[0],
@@ -383,7 +383,7 @@ def replay_phase(v, cov, tier):
                 if bad:
                     v.finding("%s:%s:%s" % (e["op"], bad[0], e.get("cls", "")), "%s route: %r.%s -> %s" % (mode, text(s), calls[j], bad[1]),
                               {"route": mode, "s": s, "text": text(s), "call": calls[j], "expected": {k: x for k, x in e.items() if k not in ("nontrivial",)}, "got": got[j]})
-                elif e["op"] not in samples and e["nontrivial"] and mode == "script" and (len(s) >= 3 or rec["kind"] == "num") and (rec["kind"] != "abe" or 233 in s):
+                elif e["op"] not in samples and e["nontrivial"] and mode == "script" and (len(s) >= 3 or (rec["kind"] == "num" and e["num"]["ok"])) and (rec["kind"] != "abe" or 233 in s):
                     samples[e["op"]] = {"route": mode, "s": text(s), "call": calls[j], "spec": {k: x for k, x in e.items() if k in ("b", "c", "r", "num")}, "impl": got[j]}
     for mode, u in units.items():
         if u["only_byte"] and u["only_cp"]:
@@ -505,7 +505,8 @@ def trace_phase(v, cov, tier):
         raise common.ToolError("TwoWayTrace: %d verdicts for %d traces" % (len(verdicts), len(rows)))
     cov["states"] += r.distinct
     cov["transitions"] += r.generated
-    accepted = tight_ok = with_iters = nontrivial = iters = 0
+    accepted = tight_ok = with_iters = iters = 0
+    nontrivial = set()                                   # distinct (haystack, needle) pairs
     decisions = collections.Counter()
     samples = []
     for j, i in enumerate(index):
@@ -525,7 +526,8 @@ def trace_phase(v, cov, tier):
         else:
             accepted += 1
             with_iters += nit > 0
-            nontrivial += nit >= 2
+            if nit >= 2:
+                nontrivial.add((c["h"], c["n"]))
         tight_ok += bool(vd["tight"]["ok"])
         # the same call through the public functions and a script
         cp = len(bytes(row["h"][:vd["spec"]]).decode()) if vd["spec"] >= 0 else -1
@@ -557,7 +559,7 @@ def trace_phase(v, cov, tier):
                              "re-tuned, so the exhaustive model-checking result no longer speaks about this code; the verdict rests on the abstract "
                              "trace judgement and the exhaustive replay only" % (len(rows) - tight_ok, len(rows)))
     cov["traces_validated_against_impl"] = accepted
-    return len(rows), nontrivial, samples
+    return len(rows), len(nontrivial), samples
 
 
 def selftest_damage(rows, how):
